@@ -315,6 +315,8 @@ def concrete_case(pattern, folders, opts, witness, names=None):
         undefined_time = opts.get("times") == "partial" and i % 2 == 0
         e["attributes"] = None if (undefined_attr or opts.get("attrs") == "none") else W.default_attributes(k)
         e["mtime"] = None if (undefined_time or opts.get("times") == "none") else 132000000000000000 + i
+        if opts.get("ctime"):
+            e["ctime"] = 131000000000000000 + i
         entries.append(e)
         if k in "fl":
             datas.append(data)
